@@ -41,6 +41,7 @@ func (c *CircuitFixed) Define(api frontend.API) error {
 	verifierChip := NewVerifierChip(api, c.CommonCircuitData)
 	verifierChip.Verify(c.ProofWithPis.Proof, c.ProofWithPis.PublicInputs, c.VerifierData)
 
+	glChip := gl.New(api)
 	publicInputs := c.ProofWithPis.PublicInputs
 
 	if len(publicInputs) != 16 {
@@ -50,6 +51,9 @@ func (c *CircuitFixed) Define(api frontend.API) error {
 		publicInputLimb := frontend.Variable(0)
 		slicePub := publicInputs[j*4 : (j+1)*4]
 		for i := 0; i < 4; i++ {
+			// The inner proof only fixes each public input modulo the Goldilocks prime,
+			// so the limb must be width-checked for the packing to be injective.
+			glChip.RangeCheckWithMaxBits(slicePub[i], 32)
 			pubU32 := slicePub[i].Limb
 			pubByte := frontend.Variable(new(big.Int).SetUint64(1 << 32))
 			publicInputLimb = api.Add(pubU32, api.Mul(pubByte, publicInputLimb))
